@@ -5,7 +5,7 @@ D=$1; NAME=$2; PKG=${3:-sudachi}
 W=/var/tmp/confirm-wt
 if [ ! -d $W ]; then git -C /repo worktree add -q --detach $W HEAD || exit 3; fi
 cd $W && git checkout -q --detach $(git -C /repo rev-parse HEAD) && git checkout -q -- . && git clean -fdq -e target
-cp "$D/demo.rs" $W/$PKG/tests/$NAME.rs
+mkdir -p $W/$PKG/tests; cp "$D/demo.rs" $W/$PKG/tests/$NAME.rs
 R3=$(cargo test --offline -p $PKG --test $NAME 2>&1 | grep -E "^test result" | tail -1)
 git apply "$D/patch.diff" || { echo "PATCH DOES NOT APPLY"; exit 3; }
 R2=$(cargo test --offline -p $PKG --test $NAME 2>&1 | grep -E "^test result|error\[|error:" | tail -1)
